@@ -856,6 +856,9 @@ func color(tokens []Token, _ string) pr.DeclaredValue {
 	}
 	token := tokens[0]
 	result := pa.ParseColor(token)
+	if result.IsNone() { // invalid color
+		return nil
+	}
 	if result.Type == pa.ColorCurrentColor {
 		return pr.Inherit
 	} else {
@@ -1749,7 +1752,7 @@ func display(tokens []Token, _ string) pr.CssProperty {
 		if !ok {
 			return nil
 		}
-		value := string(ident.Value)
+		value := utils.AsciiLower(ident.Value)
 		switch value {
 		case "block", "inline":
 			if outside != "" {
